@@ -28,6 +28,10 @@ class Marker:
     pass
 
 
+class FMarker:
+    """Products of marker *factories* (the factory table is part of a context's snapshot)."""
+
+
 class H:
     def __init__(self, sim: Sim, plan: dict) -> None:
         self.sim = sim
@@ -39,6 +43,7 @@ class H:
         self.factories: dict[str, Any] = {}
         self.handles: dict[str, Any] = {}
         self.events: dict[str, anyio.Event] = {}
+        self.fac_names: list[str] = []
         self.scope: CancelScope | None = None
 
     def know(self, ctx: Context, cid: str) -> None:
@@ -57,6 +62,17 @@ class H:
 
     def view(self, ctx: Context) -> list:
         return sorted(ctx.get_resources(Marker))
+
+    def fview(self, ctx: Context) -> list:
+        """Names of the marker factories visible from ctx (probing generates in ctx only)."""
+        out = []
+        for n in self.fac_names:
+            try:
+                if ctx.get_resource_nowait(FMarker, n, optional=True) is not None:
+                    out.append(n)
+            except Exception:  # noqa: BLE001
+                out.append(n + "!")
+        return sorted(out)
 
     # ---------------------------------------------------------------- blocks
     async def run_block(self, b: dict) -> None:
@@ -96,10 +112,22 @@ class H:
                 self.res(a[1], cid)
             elif op == "td":
                 self.td(a[1], cid)
+            elif op == "resfac":
+                current_context().add_resource_factory(lambda: FMarker(), a[1]["rid"], types=[FMarker])
+                self.fac_names.append(a[1]["rid"])
+                sim.log("resfac", rid=a[1]["rid"], ctx=cid)
             elif op == "svc":
                 await self.svc(a[1], cid)
             elif op == "child":
-                await self.run_block(a[1])
+                if a[1].get("deadline") is not None:
+                    # a timeout narrower than the root around a sub-context
+                    with anyio.move_on_after(a[1]["deadline"]) as scope:
+                        await self.run_block(a[1])
+                    if scope.cancelled_caught:
+                        sim.fault("local_deadline")
+                        sim.log("local_cancel", ctx=a[1]["id"])
+                else:
+                    await self.run_block(a[1])
             elif op == "par":
                 async with create_task_group() as tg:
                     for br in a[1]:
@@ -182,6 +210,7 @@ class H:
                 owner=cid,
                 view=h.view(c),
                 owner_now=h.view(owner),
+                fview=h.fview(c),
             )
             for otd in body_spec.get("own_td", ()):
                 h.own_td(c, name, otd)
@@ -336,6 +365,7 @@ class H:
                 parent=h.cid(par),
                 grandparent=h.cid(par.parent) if par is not None else None,
                 view=h.view(c),
+                fview=h.fview(c),
             )
             h.obs_handles(fid, f"in:{tid}")
             try:
@@ -559,6 +589,16 @@ def oracle(sim: Sim, plan: dict) -> list[dict]:
     body_ends = {r[5]["ctx"]: r for r in tr if r[4] == "body_end"}
     ctx_parent = {r[5]["ctx"]: r[5]["parent"] for r in tr if r[4] == "ctx_new"}
 
+    local_cancelled = {r[5]["ctx"] for r in tr if r[4] == "local_cancel"}
+    # contexts nested inside a locally cancelled one are cancelled with it
+    changed_lc = True
+    while changed_lc:
+        changed_lc = False
+        for c_, p_ in ctx_parent.items():
+            if p_ in local_cancelled and c_ not in local_cancelled:
+                local_cancelled.add(c_)
+                changed_lc = True
+
     def root_of(c: str) -> str:
         while ctx_parent.get(c) not in (None, "?"):
             c = ctx_parent[c]
@@ -605,6 +645,9 @@ def oracle(sim: Sim, plan: dict) -> list[dict]:
             d = st[0][5]
             if not d["fresh"] or d["parent"] != c:
                 v("C08.context", "parent", f"service task {name} runs in context fresh={d['fresh']} parent={d['parent']}, expected a fresh child of {c}")
+            want_f = sorted(r[5]["rid"] for r in tr if r[4] == "resfac" and r[0] < s["call"][0])
+            if d.get("fview") is not None and d["fview"] != want_f:
+                v("C08.context", "factory_snapshot", f"service task {name} sees resource factories {d['fview']}; those registered when it was started: {want_f}")
             if d["view"] != d["owner_now"] or not set(s["call"][5]["owner_view"]) <= set(d["view"]):
                 v("C08.context", "snapshot", f"service task {name} sees {d['view']}; the owner held {d['owner_now']} when its context was created (and {s['call'][5]['owner_view']} at the call)")
             ret = s.get("svc_reg")
@@ -764,6 +807,9 @@ def oracle(sim: Sim, plan: dict) -> list[dict]:
                 v("C09.context", "parent", f"task {tid}: context parent is {d['parent']}, expected the factory's own context {fid}.ctx")
             if d["grandparent"] != f["ctx"]:
                 v("C09.context", "grandparent", f"task {tid}: the factory context's parent is {d['grandparent']}, expected the owner {f['ctx']}")
+            want_f = sorted(r[5]["rid"] for r in tr if r[4] == "resfac" and r[0] < f["call"][0])
+            if d.get("fview") is not None and d["fview"] != want_f:
+                v("C09.context", "factory_snapshot", f"task {tid} sees resource factories {d['fview']}; those registered when its task factory was started: {want_f}")
             lo = set(f["call"][5]["owner_view"])
             hi = set(f.get("started_view", d["view"]))
             if not (lo <= set(d["view"]) <= hi) or any(n.startswith("extra_") for n in d["view"]):
@@ -780,7 +826,14 @@ def oracle(sim: Sim, plan: dict) -> list[dict]:
                 if st is not None and se[0] < st[0]:
                     v("C09.handles", "start_early", f"start_task({tid}) returned before task_status.started()")
         # wait_finished returns exactly when the task has ended
-        for wb, we in zip(t.get("hwait_begin", []), t.get("hwait_end", [])):
+        pairs = []
+        for we_ in t.get("hwait_end", []):
+            # an interrupted wait logs no end: pair each end with the latest begin before it
+            # issued by the same task
+            cands = [b for b in t.get("hwait_begin", []) if b[0] < we_[0] and b[3] == we_[3]]
+            if cands:
+                pairs.append((cands[-1], we_))
+        for wb, we in pairs:
             te = t.get("task_end", [None])[0]
             if te is None:
                 if ts is None and se is not None and se[5]["out"] == "ok":
@@ -792,9 +845,20 @@ def oracle(sim: Sim, plan: dict) -> list[dict]:
                 elif abs(we[2] - max(te[2], wb[2])) > 1e-9 and not (cancel_seq is not None):
                     v("C09.wait", "late", f"task {tid} ended at t={te[2]}, wait_finished() returned at t={we[2]}")
         # cancel() ends only that task
-        if t.get("task_cancelled") and not t.get("hcancel"):
+        start_interrupted = se is not None and se[5]["out"] == "cancelled"  # start_task() itself was cancelled
+        if t.get("task_cancelled") and not t.get("hcancel") and not start_interrupted:
             f_ctx = f["ctx"]
-            if not teardown_cancelled(f_ctx) and not teardown_cancelled(root_of(f_ctx)):
+            root_be = body_ends.get(root_of(f_ctx))
+            tc_seq = t["task_cancelled"][0][0]
+            during_root_body = root_be is None or tc_seq < root_be[0]
+            locally = f_ctx in local_cancelled and not teardown_cancelled(root_of(f_ctx))
+            if f_ctx in local_cancelled and not during_root_body:
+                pass  # cancelled later, by the root going down: nobody owes this task a wait any more
+            elif locally:
+                # the owner's teardown was interrupted by a timeout narrower than the root:
+                # its wait may be cut short, but the tasks live on in the root's task group
+                v("C09.cancel", "foreign_cancel_local" + late_sfx(tid), f"task {tid} observed cancellation because the teardown of its factory's owner {f_ctx} was interrupted by a local timeout (teardown may stop waiting, it must never cancel)")
+            elif not teardown_cancelled(f_ctx) and not teardown_cancelled(root_of(f_ctx)):
                 v("C09.cancel", "foreign_cancel" + late_sfx(tid), f"task {tid} observed cancellation although nobody cancelled its handle (teardown must wait, not cancel)")
         if t.get("hcancel") and ts is not None:
             hc = t["hcancel"][0]
@@ -967,6 +1031,8 @@ class G:
         self.tfs: list[str] = []
         self.tids: list[str] = []
         self.ntask = 0
+        self.no_svc = 0
+        self.nrf = 0
 
     def nid(self, p: str) -> str:
         self.n += 1
@@ -1071,7 +1137,8 @@ class G:
                     "p": 2,
                     "res": 2,
                     "td": 1.5,
-                    "svc": w_svc if self.nsvc < 4 else 0,
+                    "svc": w_svc if self.nsvc < 4 and not self.no_svc else 0,
+                    "resfac": 0.8 if depth == 0 and self.nrf < 4 else 0,
                     "child": 0.8 if depth < 2 and self.nctx < 4 else 0,
                     "par": 0.7 if depth < 2 else 0,
                     "tf": w_tf if len(self.tfs) < 2 else 0,
@@ -1087,12 +1154,23 @@ class G:
                 out.append(["res", {"rid": self.nid("r"), "async": rng.random() < 0.5, "dur": rng.choice(DTS[:5])}])
             elif op == "td":
                 out.append(["td", {"id": self.nid("c"), "async": rng.random() < 0.6, "dur": rng.choice(DTS[:5])}])
+            elif op == "resfac":
+                self.nrf += 1
+                out.append(["resfac", {"rid": self.nid("q")}])
             elif op == "svc":
                 out.append(self.svc(crash_ok))
             elif op == "child":
                 self.nctx += 1
                 saved = list(self.tfs)
-                b = {"id": f"x{self.nctx + 1}", "body": self.body(depth + 1, rng.randint(1, 5), crash_ok), "catch": True, "end": {"how": "return"}}
+                local = self.prop == "C09" and rng.random() < 0.3
+                if local:
+                    # a sub-context that owns task factories (no service tasks) under a timeout
+                    # narrower than the root
+                    self.no_svc += 1
+                b = {"id": f"x{self.nctx + 1}", "body": self.body(depth + 1, rng.randint(1, 5), crash_ok and not local), "catch": True, "end": {"how": "return"}}
+                if local:
+                    self.no_svc -= 1
+                    b["deadline"] = rng.choice((0.25, 0.5, 1.0, 2.0, 3.0))
                 if rng.random() < 0.15:
                     b["end"] = {"how": "raise", "exc": "SimError"}
                 # factories of a closed child context must not be used by the parent's later actions
